@@ -74,26 +74,8 @@ func ruleC14LoserAdoptsStored(c *Ctx) {
 				c.ok(construct, u.ipos(r), "store-succeeded edge (fresh key)")
 				continue
 			}
-			// must be <x>FromEKR(record from mustLoadLatest made after the try-store)
-			good := false
-			rv := returnedValue(r, 0)
-			var call *ssa.Call
-			switch x := strip(rv).(type) {
-			case *ssa.Call:
-				call = x
-			case *ssa.Extract:
-				call, _ = x.Tuple.(*ssa.Call)
-			}
-			if call != nil {
-				if g := staticCallee(call); g != nil && (g.Name() == "systemKeyFromEKR" || g.Name() == "intermediateKeyFromEKR") {
-					rec := resolve(call.Call.Args[2])
-					if ex, ok := rec.(*ssa.Extract); ok {
-						if lc, ok := ex.Tuple.(*ssa.Call); ok && staticCallee(lc) == mll && instrDominates(try, lc) {
-							good = true
-						}
-					}
-				}
-			}
+			// must be <x>FromEKR(record from mustLoadLatest made after the try-store) — here, or in a helper called after it
+			good := adoptsStored(returnedValue(r, 0), mll, try, 0)
 			c.check(good, construct, u.ipos(r), "adopts the key of a record re-read (mustLoadLatest) after the refused store", "after a refused store something other than a key rebuilt from the re-read stored record is returned: racing creators would not converge on the persisted key")
 		}
 	}
@@ -227,4 +209,49 @@ func ruleC14ParentReresolved(c *Ctx) {
 		}
 	}
 	c.check(len(problems) == 0, shortName(f)+"/unwrapping-key", u.ipos(acc), "unwrapped with the SK version the record names (equality test or re-resolved through the SK cache)", strings.Join(problems, "; "))
+}
+
+// adoptsStored: v is <x>FromEKR(record) with the record re-read by mustLoadLatest after `after` (nil: anywhere in the
+// function), or the key result of a package helper called after `after` all of whose non-nil key returns are such values.
+func adoptsStored(v ssa.Value, mll *ssa.Function, after ssa.Instruction, depth int) bool {
+	var call *ssa.Call
+	switch x := strip(v).(type) {
+	case *ssa.Call:
+		call = x
+	case *ssa.Extract:
+		call, _ = x.Tuple.(*ssa.Call)
+	}
+	if call == nil || depth > 2 {
+		return false
+	}
+	if after != nil && !instrDominates(after, call) {
+		return false
+	}
+	g := staticCallee(call)
+	if g == nil {
+		return false
+	}
+	if g.Name() == "systemKeyFromEKR" || g.Name() == "intermediateKeyFromEKR" {
+		rec := resolve(call.Call.Args[2])
+		if ex, ok := rec.(*ssa.Extract); ok {
+			if lc, ok := ex.Tuple.(*ssa.Call); ok && staticCallee(lc) == mll && (after == nil || instrDominates(after, lc)) {
+				return true
+			}
+		}
+		return false
+	}
+	if g.Blocks == nil || g.Pkg == nil || g.Pkg.Pkg.Path() != pkgApp {
+		return false
+	}
+	n := 0
+	for _, hr := range returnsOf(g) {
+		if len(hr.Results) == 0 || isNilValue(returnedValue(hr, 0)) {
+			continue
+		}
+		n++
+		if !adoptsStored(returnedValue(hr, 0), mll, nil, depth+1) {
+			return false
+		}
+	}
+	return n > 0
 }
